@@ -53,7 +53,10 @@ def strat_T(tier):
         'ab': st.tuples(U.nice_float(-2, 2), U.nice_float(-2, 2), U.nice_float(-2, 2), U.nice_float(-2, 2)).map(lambda t: [round(v, 3) for v in t]),
         'mag': st.sampled_from([0, 0, 0, 0, -9, -12, 9, -30, 30, -100, 100]),       # decimal exponent of an overall amplitude factor: the relations are homogeneous in the field
         # an earlier transform in the same session that shares the sampling of one axis only (bases cached per axis)
-        'pre': st.sampled_from(['none', 'none', 'share-rows', 'share-cols', 'failed-calls', 'other-shift', 'interleaved-many']), 'fftbackend': U.fft_backends,
+        'pre': st.sampled_from(['none', 'none', 'share-rows', 'share-cols', 'failed-calls', 'other-shift', 'interleaved-many', 'single-precision-twin', 'single-precision-twin']),
+        'fftbackend': U.fft_backends,
+        # a non-zero shift as the caller's own float64 array, one object for every call of the case (documented type: tuple; arrays are accepted)
+        'shift_as': st.sampled_from(['tuple', 'tuple', 'ndarray']),
     })
 
 
@@ -103,7 +106,13 @@ def _check_T_inner(case, ctx):
               'embed-aspect-change' if aspect_change else 'embed-same-aspect', 'shifted' if shifted else 'unshifted',
               'out-square' if out[0] == out[1] else 'out-nonsquare')
 
+    sh_arr = np.array(sh, dtype=np.float64) if (shifted and case.get('shift_as', 'tuple') == 'ndarray') else None
+    if sh_arr is not None:
+        ctx.label('shift-as:ndarray')
+
     def T(f, o=tuple(out), s=sh):
+        if sh_arr is not None and s is sh:
+            s = sh_arr
         return np.asarray(ctx.call(T0, f, dx_in, efl, lam, dx_out, o, shift=s, method=method))
     pre = case.get('pre', 'none')
     if pre == 'failed-calls':
@@ -128,6 +137,16 @@ def _check_T_inner(case, ctx):
             ctx.call(T0, tiny, dx_in, efl, lam, dx_out * (1 + i / 64), (3, 2), method=method)
             T(a)
         ctx.label('pre-call:' + pre)
+    elif pre == 'single-precision-twin':
+        # the same request first with single-precision data (and, every other time, under the single-precision configuration): what it leaves in
+        # the shared executors must not be taken for the double-precision request
+        a32 = np.asarray(a).astype(np.complex64 if np.iscomplexobj(a) else np.float32)
+        if case['seed'] % 2:
+            with U.precision(32):
+                T(a32)
+        else:
+            T(a32)
+        ctx.label('pre-call:' + pre)
     elif pre != 'none':
         pshape = (ny, nx + 1) if pre == 'share-rows' else (ny + 1, nx)
         T(np.ones(pshape, dtype=complex))
@@ -151,6 +170,14 @@ def _check_T_inner(case, ctx):
     Tt = T(np.ascontiguousarray(a.T), (out[1], out[0]), (sh[1], sh[0]))
     U.check_equal(a, a_before, tag + ':input-modified', 'the transform modified its input array')
     U.check_close(Tt.T, Ta, 0, tag + ':transposition', 'T(f^T; swapped out/shift) != T(f)^T for %s->%s shift=%r' % (shape, out, sh), atol=TOL * scale)
+    if sh_arr is not None:
+        ctx.require(np.array_equal(sh_arr, np.array(sh)), tag + ':shift-argument-modified', 'the caller\'s shift array was changed: %r -> %r' % (sh, sh_arr.tolist()))
+    if pre == 'single-precision-twin':
+        # linearity and embedding invariance are blind to a consistently degraded kernel: compare with the same request on cleared executors
+        _reset()
+        fresh = T(a)
+        U.check_close(Ta, fresh, 0, tag + ':after-single-precision-twin', 'after the same request with single-precision data the double-precision result differs from the one on cleared executors',
+                      atol=1e-11 * scale)
 
 
 # ---- mask and back ---------------------------------------------------------------------------------------
@@ -164,7 +191,8 @@ def strat_mask(tier):
         'shift': _shift(), 'phys': _phys(), 'method': st.sampled_from(['mdft', 'czt']),
         'mkind': st.sampled_from(['real', 'complex', 'binary', 'int-pm', 'uint8', 'bool']), 'via': st.sampled_from(['function', 'wavefront', 'wavefront-mask']),
         'kind': U.field_kinds, 'seed': U.seeds, 'mag': st.sampled_from([0, 0, 0, 0, -9, -12, 9, -30, 30, -100, 100]),
-        'mask_space': st.sampled_from(['psf', 'pupil', 'default']), 'fftbackend': U.fft_backends})     # a mask given as a Wavefront: its dx is the mask spacing whatever its `space` label
+        'mask_space': st.sampled_from(['psf', 'pupil', 'default']), 'fftbackend': U.fft_backends,
+        'shift_as': st.sampled_from(['tuple', 'tuple', 'ndarray']), 'pre': st.sampled_from(['none', 'none', 'none', 'single-precision-twin'])})     # a mask given as a Wavefront: its dx is the mask spacing whatever its `space` label
 
 
 def _mask(case, salt=0):
@@ -228,6 +256,11 @@ def _check_mask_inner(case, ctx):
     ctx.label(method, 'via:' + via, 'mask:' + case['mkind'], 'shifted' if shifted else 'unshifted', 'square' if ny == nx else 'nonsquare',
               'mask-shape-eq' if tuple(case['mshape']) == tuple(shape) else 'mask-shape-differs')
 
+    sh_tuple = sh
+    if shifted and case.get('shift_as', 'tuple') == 'ndarray':
+        sh = np.array(sh_tuple, dtype=np.float64)          # the caller's own array, one object for every call of the case
+        ctx.label('shift-as:ndarray')
+
     def T(mask, field=f):
         if via == 'function':
             return np.asarray(ctx.call(P.to_fpm_and_back, field, dx, efl, lam, mask, fpm_dx, shift=sh, method=method))
@@ -242,6 +275,13 @@ def _check_mask_inner(case, ctx):
         return np.asarray(wo.data)
     scale = max(float(np.abs(f).sum()) * (dx * fpm_dx / (lam * efl)) ** 2 * m1.size * 2 * max(1.0, float(np.abs(m1f).max())), 1e-300)
     tag = 'to_fpm_and_back:' + method
+    if case.get('pre', 'none') == 'single-precision-twin':
+        ctx.label('pre-call:single-precision-twin')
+        if case['seed'] % 2:
+            with U.precision(32):
+                T(m1, f.astype(np.complex64))
+        else:
+            T(m1, f.astype(np.complex64))
     T1 = T(m1)
     U.check_shape(T1, shape, tag)
     T2 = T(m2)
